@@ -175,6 +175,9 @@ func (server *GripServer) addVertex(ctx context.Context, elem *gripql.GraphEleme
 	}
 
 	vertex := elem.Vertex
+	if vertex == nil {
+		return nil, fmt.Errorf("vertex validation failed: the request contains no vertex")
+	}
 	err = vertex.Validate()
 	if err != nil {
 		return nil, fmt.Errorf("vertex validation failed: %v", err)
@@ -206,6 +209,9 @@ func (server *GripServer) addEdge(ctx context.Context, elem *gripql.GraphElement
 	}
 
 	edge := elem.Edge
+	if edge == nil {
+		return nil, fmt.Errorf("edge validation failed: the request contains no edge")
+	}
 	if edge.Gid == "" {
 		edge.Gid = util.UUID()
 	}
